@@ -1,6 +1,6 @@
 """C05: message keys are single-use: no nonce reuse, no replay, reordering tolerated."""
 from corecheck import run_core
 def run(ctx):
-    return run_core(ctx, "C05", sim_cfg="SIM_ratchet", mc_quick="MC_storage", mc_thorough="MC_storage_deep",
+    return run_core(ctx, "C05", sim_cfgs=["SIM_ratchet", "SIM_late"], mc_quick="MC_storage", mc_thorough="MC_storage_deep",
                     need_stats=("DeliverApp:ok", "DeliverApp:err:replay", "Encrypt:ok", "aead_seals_monitored"),
                     invariants_note="NoGenerationReuse, AtMostOnce (MlsGroup.tla, ratchet with window W, bursts, duplicates, late delivery, reload); concrete: accept/reject of every delivered generation equals the model (window 1024, gaps 1..1026), replay after acceptance rejected, and a recording provider shows no (key, nonce) pair used twice by any aead_seal of the run")
